@@ -428,3 +428,66 @@ Proof.
   intros HF Hn. pose proof (rdec_budget_extends d F F' HF known bs) as Hx. rewrite <- runt_fst in Hn.
   destruct (runt (rdec F d) known bs) as [[a r|r| |] evs]; auto. now elim Hn.
 Qed.
+
+(* ---------- the recursive decoder never panics (C03 for recursive types) ---------- *)
+Definition np {A} (p : prog A) : Prop := forall known bs, runo p known bs <> OPanic.
+
+Lemma np_okP A (Q : A -> Prop) (p : prog A) : okP Q p -> np p.
+Proof. intros H known bs. specialize (H known bs). destruct (runo p known bs); try discriminate; contradiction. Qed.
+Lemma np_bind A B (p : prog A) (f : A -> prog B) : np p -> (forall a, np (f a)) -> np (bindp p f).
+Proof.
+  intros Hp Hf known bs. rewrite runo_bind. specialize (Hp known bs).
+  destruct (runo p known bs) as [a r|r| |]; try discriminate; [apply Hf|contradiction].
+Qed.
+Lemma np_ret A (a : A) : np (Ret a). Proof. intros known bs. discriminate. Qed.
+Lemma np_fail A : np (@Fail A). Proof. intros known bs. discriminate. Qed.
+Lemma np_nofuel A : np (@NoFuel A). Proof. intros known bs. discriminate. Qed.
+Lemma np_emit A h (p : prog A) : np p -> np (emit h ;;; p).
+Proof. intros H known bs. rewrite runo_emit. apply H. Qed.
+Lemma np_rep_nat A (c : prog A) n : np c -> np (rep_nat n c).
+Proof.
+  intros Hc. induction n as [|n IH]; cbn [rep_nat]; [apply np_ret|].
+  apply np_bind; [exact Hc|]. intros a. apply np_bind; [exact IH|]. intros; apply np_ret.
+Qed.
+Lemma np_rep A (c : prog A) n : np c -> np (rep n c).
+Proof. intros Hc known bs. rewrite runo_rep. now apply np_rep_nat. Qed.
+Lemma np_chunked sz n (c : prog val) : np c -> np (chunked_items sz n c).
+Proof.
+  intros Hc. unfold chunked_items, one_chunk. cbv zeta.
+  assert (H1: forall k, np (emit (HAlloc (sat_mul k sz)) ;;; emit (HReal (sat_mul k sz)) ;;; rep k c))
+    by (intros k; apply np_emit, np_emit, np_rep, Hc).
+  apply np_bind.
+  - destruct (n / chunk_len sz =? 0); [apply np_ret|]. apply np_rep, H1.
+  - intros full. destruct (n mod chunk_len sz =? 0); [apply np_ret|]. apply np_bind; [apply H1|]. intros; apply np_ret.
+Qed.
+Lemma np_read_byte : np read_byte.
+Proof. intros known bs. cbn [read_byte runo]. destruct bs; discriminate. Qed.
+
+Lemma np_boxed sz (s : prog val) : np s -> np (boxed sz s).
+Proof. intros H. unfold boxed. apply np_emit, np_emit, np_emit. apply np_bind; [exact H|]. intros; apply np_emit, np_ret. Qed.
+Lemma np_rfield (s : prog val) f : np s -> wf_rfield f = true -> np (rfield_dec s f).
+Proof.
+  intros Hs Hw. destruct f as [t|sz|sz|sz]; cbn [rfield_dec wf_rfield] in *.
+  - apply (np_okP _ T). now apply (proj1 dec_total_mut).
+  - now apply np_boxed.
+  - apply np_bind; [apply np_read_byte|]. intros b. destruct (Byte.to_N b) as [|[p|p|]]; try apply np_fail; [apply np_ret|].
+    apply np_bind; [now apply np_boxed|intros; apply np_ret].
+  - apply np_bind; [apply (np_okP _ T), okP_dec_compact; unfold okwidth; auto|]. intros n.
+    apply np_emit. apply np_bind; [now apply np_chunked|]. intros; apply np_emit, np_ret.
+Qed.
+Lemma np_rfields (s : prog val) fs : np s -> forallb wf_rfield fs = true -> np (rfields s fs).
+Proof.
+  intros Hs. induction fs as [|f r IH]; cbn [rfields forallb]; intros Hw; [apply np_ret|]. apply andb_prop in Hw as [Hf Hr].
+  apply np_bind; [now apply np_rfield|]. intros x. apply np_bind; [now apply IH|intros; apply np_ret].
+Qed.
+Lemma np_rvariants (s : prog val) vs : np s -> wf_rdef vs = true -> forall b k, np (rvariants s vs b k).
+Proof.
+  intros Hs. induction vs as [|[idx fs] r IH]; intros Hw b k; cbn [rvariants]; [apply np_fail|].
+  cbn [wf_rdef forallb snd] in Hw. apply andb_prop in Hw as [Hf Hr].
+  destruct (_ =? _); [|now apply IH]. apply np_bind; [now apply np_rfields|intros; apply np_ret].
+Qed.
+Theorem rec_never_panics d : wf_rdef d = true -> forall F known bs, runo (rdec F d) known bs <> OPanic.
+Proof.
+  intros Hw F. change (np (rdec F d)). induction F as [|f IH]; cbn [rdec]; [apply np_nofuel|].
+  apply np_bind; [apply np_read_byte|]. intros b. now apply np_rvariants.
+Qed.
